@@ -48,37 +48,44 @@ template <class A> static void sweep(A& f, int lo, int hi, const char* name) {
       cur("multiply", a, b); if (f.mul(a, b) != (a * b) % P) fail(std::string(g_cur) + " = " + std::to_string(f.mul(a, b))); } }
   for (long e = -3 * (long)P - 2; e <= 3 * (long)P + 2; e++) { cur("convert", e, 0); ++total; long m = e % (long)P; if (m < 0) m += P; if (f.conv(e) != (UL)m) fail(std::string(g_cur) + " = " + std::to_string(f.conv(e)) + ", residue is " + std::to_string(m)); }
   for (long e : {-2147483647L - 1, -2147483647L, 2147483647L}) { cur("convert", e, 0); ++total; long m = e % (long)P; if (m < 0) m += P; if (f.conv(e) != (UL)m) fail(std::string(g_cur) + " = " + std::to_string(f.conv(e)) + ", residue is " + std::to_string(m)); }
+  // an integer (negative ones included) combined with / compared to an element: by residue, result reduced
+  { long o[5]; if (f.mixed(0, 0, o)) for (long v = -2 * (long)P - 1; v <= 2 * (long)P + 1; v++) for (UL b = 0; b < P; b++) { long m = v % (long)P; if (m < 0) m += P; f.mixed(v, b, o); total += 4;
+      cur("integer + element", v, b); if (o[0] != (long)((m + b) % P)) fail(std::string(g_cur) + " = " + std::to_string(o[0]));
+      cur("integer - element", v, b); if (o[1] != (long)((m + P - b) % P)) fail(std::string(g_cur) + " = " + std::to_string(o[1]) + ", exact result reduced is " + std::to_string((m + P - b) % P));
+      cur("integer * element", v, b); if (o[2] != (long)((m * b) % P)) fail(std::string(g_cur) + " = " + std::to_string(o[2]));
+      cur("integer == element", v, b); if ((o[3] != 0) != ((UL)m == b) || (o[4] != 0) != ((UL)m == b)) fail(std::string(g_cur) + " is " + std::to_string(o[3]) + "/" + std::to_string(o[4]) + ", the residues are " + std::to_string(m) + " and " + std::to_string(b)); } }
+  { long o; if (f.tm(0, 0, &o)) for (UL a = 0; a < P; a++) for (UL b = 0; b < P; b++) { f.tm(a, b, &o); ++total; cur("times_minus", a, b); if (o != (long)((P - (a * b) % P) % P)) fail(std::string(g_cur) + " = " + std::to_string(o) + ", -x*y reduced is " + std::to_string((P - (a * b) % P) % P)); } }
 }
 struct A_small_ops { Multi_field_operators_with_small_characteristics f; A_small_ops(int lo, int hi) : f(lo, hi) {}
   UL P() { return f.get_characteristic(); } PR pinv(UL e, UL Q) { auto r = f.get_partial_inverse((unsigned)e, (unsigned)Q); return {r.first, r.second}; }
   UL add(UL a, UL b) { return f.add(a, b); } UL sub(UL a, UL b) { return f.subtract(a, b); } UL mul(UL a, UL b) { return f.multiply(a, b); }
   UL conv(long e) { long P_ = P(); long m = e % P_; return f.get_value((unsigned)(m < 0 ? m + P_ : m)); }   /* the operator class only converts unsigned values */
-  UL inv(UL a) { return f.get_inverse((unsigned)a); } };
+  UL inv(UL a) { return f.get_inverse((unsigned)a); } bool mixed(long, UL, long*) { return false; } bool tm(UL, UL, long*) { return false; } };
 struct A_small_shared { typedef Shared_multi_field_element_with_small_characteristics<> E; A_small_shared(int lo, int hi) { E::initialize(lo, hi); }
   UL P() { return E::get_characteristic(); } PR pinv(UL e, UL Q) { auto r = E((unsigned)e).get_partial_inverse((unsigned)Q); return {r.first.get_value(), r.second}; }
   UL add(UL a, UL b) { E x((unsigned)a); x += E((unsigned)b); return x.get_value(); } UL sub(UL a, UL b) { E x((unsigned)a); x -= E((unsigned)b); return x.get_value(); }
-  UL mul(UL a, UL b) { E x((unsigned)a); x *= E((unsigned)b); return x.get_value(); } UL conv(long e) { return (e >= -2147483648L && e <= 2147483647L) ? E((int)e).get_value() : E((long)e).get_value(); } UL inv(UL a) { return E((unsigned)a).get_inverse().get_value(); } };
+  UL mul(UL a, UL b) { E x((unsigned)a); x *= E((unsigned)b); return x.get_value(); } UL conv(long e) { return (e >= -2147483648L && e <= 2147483647L) ? E((int)e).get_value() : E((long)e).get_value(); } UL inv(UL a) { return E((unsigned)a).get_inverse().get_value(); } bool mixed(long v, UL b, long* o) { E f((unsigned)b); int iv = (int)v; o[0] = (long)(iv + f); o[1] = (long)(iv - f); o[2] = (long)(iv * f); o[3] = (iv == f); o[4] = (f == iv); return true; } bool tm(UL, UL, long*) { return false; } };
 template <unsigned lo, unsigned hi> struct A_small_el { typedef Multi_field_element_with_small_characteristics<lo, hi> E;
   UL P() { return E::get_characteristic(); } PR pinv(UL e, UL Q) { auto r = E((unsigned)e).get_partial_inverse((unsigned)Q); return {r.first.get_value(), r.second}; }
   UL add(UL a, UL b) { E x((unsigned)a); x += E((unsigned)b); return x.get_value(); } UL sub(UL a, UL b) { E x((unsigned)a); x -= E((unsigned)b); return x.get_value(); }
-  UL mul(UL a, UL b) { E x((unsigned)a); x *= E((unsigned)b); return x.get_value(); } UL conv(long e) { return (e >= -2147483648L && e <= 2147483647L) ? E((int)e).get_value() : E((long)e).get_value(); } UL inv(UL a) { return E((unsigned)a).get_inverse().get_value(); } };
+  UL mul(UL a, UL b) { E x((unsigned)a); x *= E((unsigned)b); return x.get_value(); } UL conv(long e) { return (e >= -2147483648L && e <= 2147483647L) ? E((int)e).get_value() : E((long)e).get_value(); } UL inv(UL a) { return E((unsigned)a).get_inverse().get_value(); } bool mixed(long v, UL b, long* o) { E f((unsigned)b); int iv = (int)v; o[0] = (long)(iv + f); o[1] = (long)(iv - f); o[2] = (long)(iv * f); o[3] = (iv == f); o[4] = (f == iv); return true; } bool tm(UL, UL, long*) { return false; } };
 struct A_gmp_ops { Multi_field_operators f; A_gmp_ops(int lo, int hi) : f(lo, hi) {}
   UL P() { return ul(f.get_characteristic()); } PR pinv(UL e, UL Q) { auto r = f.get_partial_inverse(mpz_class(e), mpz_class(Q)); return {ul(r.first), ul(r.second)}; }
   UL add(UL a, UL b) { return ul(f.add(mpz_class(a), mpz_class(b))); } UL sub(UL a, UL b) { return ul(f.subtract(mpz_class(a), mpz_class(b))); } UL mul(UL a, UL b) { return ul(f.multiply(mpz_class(a), mpz_class(b))); }
-  UL conv(long e) { return ul(f.get_value(mpz_class(e))); } UL inv(UL a) { return ul(f.get_inverse(mpz_class(a))); } };
+  UL conv(long e) { return ul(f.get_value(mpz_class(e))); } UL inv(UL a) { return ul(f.get_inverse(mpz_class(a))); } bool mixed(long, UL, long*) { return false; } bool tm(UL, UL, long*) { return false; } };
 struct A_gmp_shared { typedef Shared_multi_field_element E; A_gmp_shared(int lo, int hi) { E::initialize(lo, hi); }
   UL P() { return ul(E::get_characteristic()); } PR pinv(UL e, UL Q) { auto r = E(mpz_class(e)).get_partial_inverse(mpz_class(Q)); return {ul(r.first.get_value()), ul(r.second)}; }
   UL add(UL a, UL b) { E x{mpz_class(a)}; x += E(mpz_class(b)); return ul(x.get_value()); } UL sub(UL a, UL b) { E x{mpz_class(a)}; x -= E(mpz_class(b)); return ul(x.get_value()); }
-  UL mul(UL a, UL b) { E x{mpz_class(a)}; x *= E(mpz_class(b)); return ul(x.get_value()); } UL conv(long e) { return ul(E(mpz_class(e)).get_value()); } UL inv(UL a) { return ul(E(mpz_class(a)).get_inverse().get_value()); } };
+  UL mul(UL a, UL b) { E x{mpz_class(a)}; x *= E(mpz_class(b)); return ul(x.get_value()); } UL conv(long e) { return ul(E(mpz_class(e)).get_value()); } UL inv(UL a) { return ul(E(mpz_class(a)).get_inverse().get_value()); } bool mixed(long v, UL b, long* o) { E f{mpz_class(b)}; mpz_class z(v); o[0] = mpz_class(z + f).get_si(); o[1] = mpz_class(z - f).get_si(); o[2] = mpz_class(z * f).get_si(); o[3] = (z == f); o[4] = (f == z); return true; } bool tm(UL, UL, long*) { return false; } };
 template <unsigned lo, unsigned hi> struct A_gmp_el { typedef Multi_field_element<lo, hi> E;
   UL P() { return ul(E::get_characteristic()); } PR pinv(UL e, UL Q) { auto r = E(mpz_class(e)).get_partial_inverse(mpz_class(Q)); return {ul(r.first.get_value()), ul(r.second)}; }
   UL add(UL a, UL b) { E x{mpz_class(a)}; x += E(mpz_class(b)); return ul(x.get_value()); } UL sub(UL a, UL b) { E x{mpz_class(a)}; x -= E(mpz_class(b)); return ul(x.get_value()); }
-  UL mul(UL a, UL b) { E x{mpz_class(a)}; x *= E(mpz_class(b)); return ul(x.get_value()); } UL conv(long e) { return ul(E(mpz_class(e)).get_value()); } UL inv(UL a) { return ul(E(mpz_class(a)).get_inverse().get_value()); } };
+  UL mul(UL a, UL b) { E x{mpz_class(a)}; x *= E(mpz_class(b)); return ul(x.get_value()); } UL conv(long e) { return ul(E(mpz_class(e)).get_value()); } UL inv(UL a) { return ul(E(mpz_class(a)).get_inverse().get_value()); } bool mixed(long v, UL b, long* o) { E f{mpz_class(b)}; mpz_class z(v); o[0] = mpz_class(z + f).get_si(); o[1] = mpz_class(z - f).get_si(); o[2] = mpz_class(z * f).get_si(); o[3] = (z == f); o[4] = (f == z); return true; } bool tm(UL, UL, long*) { return false; } };
 struct A_pcoh { Gudhi::persistent_cohomology::Multi_field f; A_pcoh(int lo, int hi) { f.init(lo, hi); }
   UL P() { return ul(f.characteristic()); } PR pinv(UL e, UL Q) { auto r = f.inverse(mpz_class(e), mpz_class(Q)); return {ul(r.first), ul(r.second)}; }
   UL add(UL a, UL b) { return ul(f.plus_equal(mpz_class(a), mpz_class(b))); } UL sub(UL a, UL b) { return ul(f.plus_times_equal(mpz_class(a), mpz_class(b), mpz_class(P() - 1))); }
   UL mul(UL a, UL b) { return ul(f.times(mpz_class(a), mpz_class(b))); } UL conv(long e) { long P_ = P(); long m = e % P_; return m < 0 ? m + P_ : m; }
-  UL inv(UL a) { return ul(f.inverse(mpz_class(a), f.characteristic()).first); } };
+  UL inv(UL a) { return ul(f.inverse(mpz_class(a), f.characteristic()).first); } bool mixed(long, UL, long*) { return false; } bool tm(UL a, UL b, long* o) { *o = mpz_class(f.times_minus(mpz_class(a), mpz_class(b))).get_si(); return true; } };
 #define TPL(A, name) do { { A<2, 3> a; sweep(a, 2, 3, name); } { A<2, 5> a; sweep(a, 2, 5, name); } { A<3, 7> a; sweep(a, 3, 7, name); } { A<5, 7> a; sweep(a, 5, 7, name); } { A<7, 7> a; sweep(a, 7, 7, name); } \
   if (tier) { { A<2, 7> a; sweep(a, 2, 7, name); } { A<5, 13> a; sweep(a, 5, 13, name); } { A<11, 17> a; sweep(a, 11, 17, name); } } } while (0)
 #define DYN(A, name) do { int R[][2] = {{2, 3}, {2, 5}, {3, 7}, {5, 7}, {7, 7}, {2, 7}, {5, 13}, {11, 17}}; for (int k = 0; k < (tier ? 8 : 5); k++) { A a(R[k][0], R[k][1]); sweep(a, R[k][0], R[k][1], name); } } while (0)
